@@ -1870,6 +1870,15 @@ class Compiler:
         if local:
             outer[:] = list(self._enter_assignment(names)) + outer
 
+        # Remember the repeat item registered under the same key by an
+        # enclosing loop (if any); it is put back when this loop is done.
+        previous = identifier("__repeat", id(node))
+        outer += template(
+            "try: PREVIOUS = getname('repeat')[key]\n"
+            "except KeyError: PREVIOUS = __marker",
+            key=key, PREVIOUS=previous
+        )
+
         outer += template(
             "__iterator, INDEX = getname('repeat')(key, __iterator)",
             key=key, INDEX=index
@@ -1902,6 +1911,11 @@ class Compiler:
             body=assignment + inner,
             orelse=[],
         )]
+
+        outer += template(
+            "if PREVIOUS is not __marker: getname('repeat')[key] = PREVIOUS",
+            key=key, PREVIOUS=previous
+        )
 
         # Finally, clean up assignment if it's local
         if local:
